@@ -95,8 +95,9 @@ pub fn requests(d: &mut D) {
     }
     for name in REQ_NAMES.iter() {
         // every value of every byte parameter, the others random and distinct
+        let reps = if d.thorough { 8 } else { 1 };
         for par in byte_params(name) {
-            for v in 0..=255u64 {
+            for v in (0..=255u64).cycle().take(256 * reps) {
                 let ctx = 10 + (v % 5);
                 let dst = d.g.byte() & 0x7F;
                 let mut a = distinct_args(d, name, dst);
@@ -130,7 +131,7 @@ pub fn requests(d: &mut D) {
             }
         }
         // all 256 destination values
-        for dst in 0..=255u64 {
+        for dst in (0..=255u64).cycle().take(256 * reps) {
             let a = d.rand_req_args(name, dst as u8);
             let p = d.enc_req(10 + (dst % 5), name, a);
             k += 1;
@@ -224,7 +225,8 @@ pub fn responses(d: &mut D) {
                 }
                 _ => vec![json!({})],
             };
-            for c in combos {
+            let creps = if d.thorough { 12 } else { 1 };
+            for c in combos.iter().cycle().take(combos.len() * creps) {
                 let dst = d.g.byte() & 0x7F;
                 let mut a = d.rand_resp_args(name, dst, cc);
                 for (kk, vv) in c.as_object().unwrap() {
@@ -239,7 +241,7 @@ pub fn responses(d: &mut D) {
             }
         }
         // all 256 destinations
-        for dst in 0..=255u64 {
+        for dst in (0..=255u64).cycle().take(if d.thorough { 256 * 6 } else { 256 }) {
             let a = d.rand_resp_args(name, dst as u8, if dst % 4 == 3 { 1 + dst % 5 } else { 0 });
             let p = d.enc_resp(10, name, a);
             k += 1;
@@ -254,7 +256,8 @@ pub fn responses(d: &mut D) {
             let set = d.enc_req(1, "set_endpoint_id", json!({"dst":0x2A,"operation":eid % 2,"eid":eid}));
             d.process(10, &set);
         }
-        for name in ["set_endpoint_id", "get_endpoint_id"] {
+        let names: Vec<&str> = if d.thorough { RESP_NAMES.to_vec() } else { vec!["set_endpoint_id", "get_endpoint_id"] };
+        for name in names {
             let a = d.rand_resp_args(name, 0x33, 0);
             let p = d.enc_resp(10, name, a);
             k += 1;
